@@ -1465,6 +1465,8 @@ class Helper:
 
     def __init__(self, node, kind, cls):
         self.node = node          # canonicalised FunctionDef
+        self.is_async = kind.startswith('a')
+        kind = kind[1:] if self.is_async else kind
         self.kind = kind          # 'function' | 'method' | 'classmethod' | 'staticmethod'
         self.cls = cls            # enclosing class name or None
         self.name = node.name
@@ -1472,7 +1474,12 @@ class Helper:
 
 def helper_candidate(node):
     """Can calls to this function be replaced by its body?"""
-    if not isinstance(node, ast.FunctionDef):
+    if not isinstance(node, (ast.FunctionDef, ast.AsyncFunctionDef)):
+        return None
+    # a plain `async def` helper (no decorator: not an MPyC coroutine with its own program counter) that is awaited runs its body
+    # inside the caller's task, exactly as if the body stood at the `await`
+    is_async = isinstance(node, ast.AsyncFunctionDef)
+    if is_async and node.decorator_list:
         return None
     kind = 'function'
     for d in node.decorator_list:
@@ -1489,7 +1496,9 @@ def helper_candidate(node):
     for n in _walk(node):
         if n is not node and isinstance(n, NESTED):
             return None
-        if isinstance(n, (ast.Yield, ast.YieldFrom, ast.Await, ast.Global, ast.Nonlocal, ast.Try, ast.With)):
+        if isinstance(n, (ast.Yield, ast.YieldFrom, ast.Global, ast.Nonlocal, ast.Try, ast.With, ast.AsyncFor, ast.AsyncWith)):
+            return None
+        if isinstance(n, ast.Await) and not is_async:
             return None
     # returns only in tail positions (not inside loops)
     for n in _walk(node):
@@ -1498,7 +1507,7 @@ def helper_candidate(node):
                 return None
     if sum(1 for _ in _walk(node)) > 400:
         return None
-    return kind
+    return 'a' + kind if is_async else kind
 
 
 def _tail_form(body):
@@ -1671,9 +1680,14 @@ def h1_inline(fn, helpers, cls_name):
             if isinstance(n, ast.BoolOp):
                 stack.insert(0, n.values[0])
                 continue
+            if isinstance(n, ast.Await) and isinstance(n.value, ast.Call):
+                h, recv = lookup(n.value)
+                if h is not None and h.is_async:
+                    n.args, n.keywords = n.value.args, n.value.keywords        # the `await h(..)` expression stands for the call
+                    return n, h, recv
             if isinstance(n, ast.Call):
                 h, recv = lookup(n)
-                if h is not None:
+                if h is not None and not h.is_async:
                     return n, h, recv
             stack.extend(ast.iter_child_nodes(n))
         return None
